@@ -105,7 +105,7 @@ def stream_init(it, st, a):
 OFS = '_ZNSt14basic_ofstreamIcSt11char_traitsIcEE'
 def file_lines(header_len, R, C, T, data_len=None):
     return [('text', l) for l in header_len] + [('nums', list(T[i]), (data_len[i] if data_len else 3 * C)) for i in range(R)]
-def file_model(header_len, R=None, C=None, T=None, data_len=None, lines=None):
+def file_model(header_len, R=None, C=None, T=None, data_len=None, lines=None, exists=True):
     """environment model of std::ifstream on a file given as a list of lines: ('text', length) - text that is not a number (an empty line when the length is 0) - or ('nums', [numbers], length).
        Stream state: the word at ios_base+32 of the stream object; the read position (line, token) and the number of lines handed out by getline live in the object's own storage.
        The same table models std::ofstream: every number, text and newline written is recorded as an event ('write', kind, value) of the path."""
@@ -114,7 +114,7 @@ def file_model(header_len, R=None, C=None, T=None, data_len=None, lines=None):
     def state(st, a, bits): st.store(a + 32, 4, bits)
     def ctor(it, args, st, depth): stream_init(it, st, args[0]); st.events.append(('file', args[0])); return [(st, None)]
     def isfile(st, a): return any(e[0] == 'file' and e[1] == a for e in st.events)
-    def fb_open(it, args, st, depth): return [(st, args[0])]
+    def fb_open(it, args, st, depth): return [(st, args[0] if exists else 0)]          # basic_filebuf::open returns a null pointer when the file cannot be opened; the caller then sets failbit
     def ignore(it, args, st, depth):
         a = args[0]; st.store(a + 100, 4, st.load(a + 100, 4) + 1); st.store(a + 8, 8, 0); return [(st, a)]
     def extract(it, args, st, depth):
@@ -219,6 +219,14 @@ def job_import(header_len, R, C, with_dims):
             for k in range(R * C): res.append(prove('%s/list-entry[%d,%d]' % (tag, pi, k), p.st.pc, toR(p.st.load(out + 8 * k, 8, True)) == T[k // C][k % C] * U, 10000, mvl, key='C20/import/list'))
     return res
 
+def job_missing_file():
+    """Import_List / Import_Table on a file that cannot be opened: the process exits with a failure status after a diagnostic (and returns normally when the file exists - the import jobs)"""
+    res = []
+    for fn, args in (('@verif_import_list', lambda st: [cpath(st), 1.0, 0, st.alloc(64), 4]), ('@verif_import_table', lambda st: [cpath(st), 0, st.alloc(8), 0, st.alloc(64), 4, st.alloc(8)])):
+        it = Interp(C19.G['m'], intercept=file_model([], 0, 0, [], exists=False), limits=Limits(max_paths=100, feas_ms=1000)); st = it.new_state(); ps = it.execute(fn, args(st), st)
+        ok = bool(ps) and all(p.end is not None and p.end.kind == 'exit' and any(e[0] == 'diag' for e in p.st.events) for p in ps)
+        res.append(ob('import/missing-file/%s' % fn[7:], 'discharged' if ok else 'candidate', key='C20/import/missing-file', model=None if ok else {'case': 'missing', 'fn': fn[7:]}, detail='%d paths: %s' % (len(ps), [str(p.end) for p in ps][:3])))
+    return res
 def cstr(st, b):
     a = st.alloc(len(b) + 1)
     for i, ch in enumerate(b + b'\0'): st.store(a + i, 1, ch)
@@ -279,6 +287,7 @@ def jobs(ctx):
     J = [(job_units, (opt, info)) for opt in b['opt_levels']]
     for r in range(1, b['sizes'] + 1):
         for c in range(1, b['sizes'] + 1): J.append((job_in_units, (r, c)))
+    J.append((job_missing_file, ()))
     for n in range(0, b['sizes'] + 1): J.append((job_count_lines, (n,)))
     for hl in ((), (12,), (12, 7), (12, 0), (0,)):
         for (R, C) in ((1, 1), (2, 3), (3, 2)) if b['sizes'] <= 3 else ((1, 1), (2, 3), (3, 2), (4, 4)):
@@ -327,6 +336,10 @@ def replay(ctx, o):
                 if r1['status'] != 'ok' or r['status'] != 'ok': return True, 'native Export_List / Import_List: %s / %s' % (r1['status'], r['status'])
                 vals = r['arrays'][1][:R * C]
                 return (r['ret'] != R * C or any(abs(a - b) > 2e-5 * max(abs(b), 1e-300) for a, b in zip(vals, X))), 'native Export_List then Import_List (header %r): %d values %s (written %d: %s)' % (hd, r['ret'], vals[:6], R * C, X[:6])
+            if m.get('case') == 'missing':
+                gone = os.path.join(d, 'no-such-file.txt')
+                r = nat.call(so, 'verif_import_list', [('str', gone), 1.0, ('u32', 0), ('dbl[]', [0.0] * 4), ('u64', 4)], restype='long') if m['fn'] == 'import_list' else nat.call(so, 'verif_import_table', [('str', gone), ('u32', 0), ('dbl[]', [0.0]), ('u32', 0), ('dbl[]', [0.0] * 4), ('u64', 4), ('u32[]', [0, 0])], restype='long')
+                return r['status'] != 'exit', 'native %s on a file that does not exist: %s' % (m['fn'], r['status'])
             if m.get('case') == 'count':
                 L = [max(0, int(fnum(q, 1))) for q in m['line_lengths']]
                 open(path, 'w').write(''.join('x' * l + '\n' for l in L))
